@@ -80,6 +80,18 @@ theorem ordNeLt_int (a b : Int) : (compare a b != Ordering.lt) = decide (b ≤ a
 
 @[simp] theorem not_bool (a : Bool) : PV.not (PV.bool a) = PV.bool (!a) := rfl
 
+@[simp] theorem iteLS_bool (b : Bool) (st t e : List PV) : PV.iteLS (PV.bool b) st t e = if b then t else e := by
+  cases b <;> rfl
+
+@[simp] theorem guardL_int (i : Int) (st k : List PV) : PV.guardL (PV.int i) st k = k := rfl
+@[simp] theorem guardL_bool (b : Bool) (st k : List PV) : PV.guardL (PV.bool b) st k = k := rfl
+@[simp] theorem guardL_flt (x : Option Rat) (st k : List PV) : PV.guardL (PV.flt x) st k = k := rfl
+@[simp] theorem guardL_arr (w : W) (xs : List Nat) (st k : List PV) : PV.guardL (PV.arr w xs) st k = k := rfl
+@[simp] theorem guardL_obj (c : String) (x y z : PV) (st k : List PV) : PV.guardL (PV.obj c x y z) st k = k := rfl
+@[simp] theorem guardL_none (st k : List PV) : PV.guardL PV.pynone st k = k := rfl
+@[simp] theorem guardL_str (s : String) (st k : List PV) : PV.guardL (PV.str s) st k = k := rfl
+@[simp] theorem guardL_err (e : String) (st k : List PV) : PV.guardL (PV.err e) st k = PV.err e :: st := rfl
+
 /-- NaN-aware comparison of two floats -/
 def fcmp (r : Rat → Rat → Bool) : Option Rat → Option Rat → Bool
   | some p, some q => r p q
